@@ -2,15 +2,26 @@
    Request lines are shared with harness/impl/c05_impl.py; the model reads the decoded address token
    ("b58:<ver>:<hash>" / "bech:<hrp hex>:<witver>:<prog>") where the implementation reads the string.
 
-     F <flags> ...           optional leading pair: which repairs the tree has ("111" = all, "000" = none)
+     F <flags> ...           optional leading pair: which repairs the tree has ("11111" = all, "00000" = none; 4th flag:
+                             1 = binary arguments are taken as they are, 0 = encoding.to_bytes as it is; 5th flag: 1 = an
+                             address next to a public key is examined (fixes/C05-4))
      str    N via S T                    Output(address=S) on network N
      parse  N via S T pn                 Output(address=Address.parse(S, network=pn))
      aobj   N via A st enc wv hash orc   Output(address=Address(hashed_data=, script_type=, encoding=, witver=, network=A))
-     hd     N via A wt ms pub h160 s256 orc   Output(address=HDKey(pub, network=A, witness_type=wt, multisig=ms))
+     adata  N via A st enc wv data h160 s256 orc   Output(address=Address(data=, script_type=, encoding=, witver=, network=A))
+     hd     N via A wt ms pub h160 s256 orc [form]   Output(address=HDKey(..., network=A, witness_type=wt, multisig=ms));
+                                         form raw (default) = HDKey(<public key bytes>): the multisig argument is overridden
+                                         by the key-format guess (False); pubkc/priv64/privkc/keyobj/public keep it
+     key    N via A form pub h160 s256 orc   Output(address=Key(..., network=A).address_obj)
      pk     N via st enc pub orc         Output(public_key=, script_type=, encoding=)
      hash   N via st wv enc hash orc     Output(public_hash=, script_type=, witver=, encoding=)
      script N via hex                    Output(lock_script=)
-     spec_lock st wv payload | spec_classify hex | spec_addr N st wv payload
+     gen    N via T S hash pub lock st wv enc orc   Output(address=S, public_hash=, public_key=, lock_script=,
+                                         script_type=, witver=, encoding=)   ("-" = argument absent)
+     spec_lock st wv payload | spec_classify hex | spec_addr N st wv payload | tobytes hex
+   via: out = Output(...), add = Transaction.add_output(...) (to_bytes is applied to the script twice),
+        tx = Transaction.parse of a raw transaction paying to the script, rt = Output(...) put into a Transaction, after
+        Transaction.raw() and Transaction.parse()
    orc = comma separated in:out pairs for hash160 (or "-").
    Answer: "<lock hex> <script_type> <network> <address token>" | ERR | UNMODELLED *)
 module BZ = Z
@@ -72,34 +83,60 @@ let stype_of = function
 let wtype_of = function
   | "legacy" -> M.WLegacy | "segwit" -> M.WSegwit | "p2sh-segwit" -> M.WP2shSegwit | _ -> failwith "wtype"
 
+(* the output as the request's [via] delivers it *)
+let out_via hf fx via (a : M.oargs) =
+  match via with
+  | "add" -> M.lib_output hf fx { a with M.a_lock = M.tb fx a.M.a_lock }
+  | "rt" -> M.lib_reparse hf fx a.M.a_net (M.lib_output hf fx a)
+  | _ -> M.lib_output hf fx a
+
 let rec dispatch_fx fx = function
   | "F" :: f :: rest ->
-      dispatch_fx { M.fx_witver = f.[0] = '1'; fx_netobj = f.[1] = '1'; fx_p2shobj = f.[2] = '1' } rest
-  | [ "str"; n; _; _; t ] ->
-      show (M.lib_output (oracle "-") fx { (args (net_of n)) with M.a_addr = M.AaStr (daddr_of t) })
-  | [ "parse"; n; _; _; t; pn ] ->
+      dispatch_fx { M.fx_witver = f.[0] = '1'; fx_netobj = f.[1] = '1'; fx_p2shobj = f.[2] = '1';
+                    fx_tb = (if String.length f > 3 && f.[3] = '0' then M.lib_to_bytes else (fun x -> x));
+                    fx_addrpk = String.length f > 4 && f.[4] = '1' } rest
+  | [ "str"; n; via; _; t ] ->
+      show (out_via (oracle "-") fx via { (args (net_of n)) with M.a_addr = M.AaStr (daddr_of t) })
+  | [ "parse"; n; via; _; t; pn ] ->
       (match M.lib_address_parse (oracle "-") fx (daddr_of t) (opt_tok cs pn) with
        | None -> "ERR"
-       | Some o -> show (M.lib_output (oracle "-") fx { (args (net_of n)) with M.a_addr = M.AaObj o }))
-  | [ "aobj"; n; _; a; st; e; wv; h; orc ] ->
+       | Some o -> show (out_via (oracle "-") fx via { (args (net_of n)) with M.a_addr = M.AaObj o }))
+  | [ "aobj"; n; via; a; st; e; wv; h; orc ] ->
       let hf = oracle orc in
-      (match M.lib_address_new hf (bytes_of_hex h) None (opt_tok cs st) (opt_tok enc_of e) None (z_of wv) (net_of a) with
+      (match M.lib_address_new hf fx (bytes_of_hex h) None (opt_tok cs st) (opt_tok enc_of e) None (z_of wv) (net_of a) with
        | None -> "ERR"
-       | Some o -> show (M.lib_output hf fx { (args (net_of n)) with M.a_addr = M.AaObj o }))
-  | [ "hd"; n; _; a; wt; ms; pub; h160; s256; orc ] ->
+       | Some o -> show (out_via hf fx via { (args (net_of n)) with M.a_addr = M.AaObj o }))
+  | [ "adata"; n; via; a; st; e; wv; _; h160; s256; orc ] ->
       let hf = oracle orc in
-      let w = wtype_of wt and m = ms = "1" in
-      (match M.lib_hd_address_obj hf (net_of a) w m (bytes_of_hex h160) (bytes_of_hex s256) with
+      (match M.lib_address_of_data hf fx (bytes_of_hex h160) (bytes_of_hex s256) (opt_tok cs st) (opt_tok enc_of e)
+               (z_of wv) (net_of a) with
        | None -> "ERR"
-       | Some o -> show (M.lib_output hf fx { (args (net_of n)) with M.a_addr = M.AaHd (o, bytes_of_hex pub, w, m) }))
-  | [ "pk"; n; _; st; e; pub; orc ] ->
-      show (M.lib_output (oracle orc) fx { (args (net_of n)) with M.a_pubkey = bytes_of_hex pub;
+       | Some o -> show (out_via hf fx via { (args (net_of n)) with M.a_addr = M.AaObj o }))
+  | "hd" :: n :: via :: a :: wt :: ms :: pub :: h160 :: s256 :: orc :: form ->
+      let hf = oracle orc in
+      let w = wtype_of wt and m = (ms = "1") && (match form with [] | [ "raw" ] -> false | _ -> true) in
+      (match M.lib_hd_address_obj hf fx (net_of a) w m (bytes_of_hex h160) (bytes_of_hex s256) with
+       | None -> "ERR"
+       | Some o -> show (out_via hf fx via { (args (net_of n)) with M.a_addr = M.AaHd (o, bytes_of_hex pub, w, m) }))
+  | [ "key"; n; via; a; _; _; h160; s256; orc ] ->
+      let hf = oracle orc in
+      (match M.lib_key_address_obj hf fx (net_of a) (bytes_of_hex h160) (bytes_of_hex s256) with
+       | None -> "ERR"
+       | Some o -> show (out_via hf fx via { (args (net_of n)) with M.a_addr = M.AaObj o }))
+  | [ "pk"; n; via; st; e; pub; orc ] ->
+      show (out_via (oracle orc) fx via { (args (net_of n)) with M.a_pubkey = bytes_of_hex pub;
                                            a_stype = opt_tok cs st; a_enc = opt_tok enc_of e })
-  | [ "hash"; n; _; st; wv; e; h; orc ] ->
-      show (M.lib_output (oracle orc) fx { (args (net_of n)) with M.a_hash = bytes_of_hex h; a_stype = opt_tok cs st;
+  | [ "hash"; n; via; st; wv; e; h; orc ] ->
+      show (out_via (oracle orc) fx via { (args (net_of n)) with M.a_hash = bytes_of_hex h; a_stype = opt_tok cs st;
                                            a_witver = z_of wv; a_enc = opt_tok enc_of e })
-  | [ "script"; n; _; s ] ->
-      show (M.lib_output (oracle "-") fx { (args (net_of n)) with M.a_lock = bytes_of_hex s })
+  | [ "script"; n; via; s ] ->
+      show (out_via (oracle "-") fx via { (args (net_of n)) with M.a_lock = bytes_of_hex s })
+  | [ "gen"; n; via; t; _; h; pub; lock; st; wv; e; orc ] ->
+      show (out_via (oracle orc) fx via
+              { (args (net_of n)) with M.a_addr = (if t = "-" then M.AaNone else M.AaStr (daddr_of t));
+                                       a_hash = bytes_of_hex h; a_pubkey = bytes_of_hex pub; a_lock = bytes_of_hex lock;
+                                       a_stype = opt_tok cs st; a_witver = z_of wv; a_enc = opt_tok enc_of e })
+  | [ "tobytes"; x ] -> hex_of_bytes (M.lib_to_bytes (bytes_of_hex x))
   | [ "spec_lock"; st; wv; p ] ->
       hex_of_bytes (M.spec_lock_script { M.d_stype = stype_of st; d_witver = z_of wv; d_payload = bytes_of_hex p })
   | [ "spec_classify"; s ] ->
@@ -110,6 +147,6 @@ let rec dispatch_fx fx = function
       tok_of_daddr (M.spec_address (net_of n) { M.d_stype = stype_of st; d_witver = z_of wv; d_payload = bytes_of_hex p })
   | _ -> "BADREQ"
 
-let dispatch toks = dispatch_fx { M.fx_witver = true; fx_netobj = true; fx_p2shobj = true } toks
+let dispatch toks = dispatch_fx M.fx_now toks
 
 let () = main dispatch
